@@ -21,7 +21,10 @@ import (
 // NextNodeId, NextInnovationNumber, StoreInnovation) until the schedule names it.  The observed outcome (numbers,
 // node ids, registry) is written out for validation by spec/Trace_InnovPar.tla.
 
-func init() { commands["replay-schedules"] = replaySchedules }
+func init() {
+	commands["replay-schedules"] = replaySchedules
+	commands["explore-schedules"] = exploreSchedules
+}
 
 type schedCase struct {
 	Scenario string          `json:"scenario"`
@@ -246,15 +249,24 @@ func runSchedule(c *schedCase, opts *neat.Options) (map[string]interface{}, stri
 		if p == "timeout" {
 			return nil, "deadlock: no progress within 10 s while following the schedule"
 		}
-		if !parked || p != want {
+		if !parked {
+			// the thread has finished although the schedule still names it: keep going with the other threads
+			if followed {
+				followed = false
+				note = fmt.Sprintf("thread %d has finished where the schedule says %q", t, want)
+			}
+			continue
+		}
+		if p != want && followed {
+			// the code is at another primitive than the model (e.g. it looks the registry up twice): the schedule is
+			// still used as an ORDER OF THREADS, so that the interleaving it describes is forced as far as possible
 			followed = false
 			note = fmt.Sprintf("thread %d is at %q where the schedule says %q", t, p, want)
-			break
 		}
 		if !step(t) {
 			return nil, "deadlock: a primitive did not return within 10 s"
 		}
-		observed = append(observed, []interface{}{t, want})
+		observed = append(observed, []interface{}{t, p})
 	}
 	// whatever is left runs freely (a schedule the code does not follow is recorded, not judged here)
 	s.mu.Lock()
@@ -294,6 +306,233 @@ func runSchedule(c *schedCase, opts *neat.Options) (map[string]interface{}, stri
 	}
 	return map[string]interface{}{"scenario": c.Scenario, "ninn0": c.NInn0, "nnode0": c.NNode0, "sched": c.Sched, "followed": followed, "note": note,
 		"expect": c.Out, "real": outs, "reg": reg, "ninn": int(ni), "nnode": int(nn), "xninn": c.NInn, "xnnode": c.NNode, "xreglen": c.RegLen}, ""
+}
+
+// ---------------------------------------------------------------------------------------------------------------
+// explore-schedules: systematic exploration of ALL interleavings of the primitives the real code itself performs (a
+// stateless search over which parked thread to release next), independent of how many primitive calls a mutation makes.
+// The registry can be pre-filled by mutations executed before the threads start.  Outcomes go to Trace_InnovPar.
+
+type exploreScenario struct {
+	Name    string
+	Prefill []schedMut
+	Progs   [][]schedMut
+}
+
+func exploreScenarios() []exploreScenario {
+	link := schedMut{Kind: "link", Src: 1, Dst: 3}
+	node := schedMut{Kind: "node", Src: 1, Dst: 3, Old: 1}
+	other := schedMut{Kind: "node", Src: 7, Dst: 9, Old: 1} // an unrelated split recorded before the threads start
+	return []exploreScenario{
+		{"x-link-link", nil, [][]schedMut{{link}, {link}}},
+		{"x-prefilled-link-link", []schedMut{other}, [][]schedMut{{link}, {link}}},
+		{"x-prefilled-split-split", []schedMut{other}, [][]schedMut{{node}, {node}}},
+		{"x-prefilled-split-link", []schedMut{other}, [][]schedMut{{node}, {link}}},
+		{"x-link-link-link", []schedMut{other}, [][]schedMut{{link}, {link}, {link}}},
+	}
+}
+
+// runOrder executes the scenario releasing, at every step, the parked thread chosen by `choose` (given the sorted list of
+// parked threads).  It returns the outcome, the choices made and the alternatives that existed at each step.
+func runOrder(sc exploreScenario, opts *neat.Options, prefix []int) (map[string]interface{}, []int, [][]int, string) {
+	pop := genetics.VerifNewEmptyPopulation()
+	pop.VerifSetCounters(1, 10)
+	// prefill sequentially, ungated
+	for _, m := range sc.Prefill {
+		g := genomeFor(m)
+		for try := 0; try < 200; try++ {
+			if ok, _ := g.VerifMutateAddNode(pop, pop, opts); ok {
+				break
+			}
+		}
+	}
+	ninn0, nnode0 := pop.VerifCounters()
+	n := len(sc.Progs)
+	s := &scheduler{arrive: make(chan arrival, n), release: make([]chan struct{}, n+1), done: make(chan int, n)}
+	for t := 1; t <= n; t++ {
+		s.release[t] = make(chan struct{}, 1)
+	}
+	results := make([][]realOut, n+1)
+	finished := make(chan int, n)
+	for t := 1; t <= n; t++ {
+		go func(t int, prog []schedMut) {
+			g := &gated{pop: pop, t: t, s: s}
+			for _, m := range prog {
+				gn := genomeFor(m)
+				before, nodesBefore := map[int64]bool{}, map[int]bool{}
+				for _, x := range gn.Genes {
+					before[x.InnovationNum] = true
+				}
+				for _, x := range gn.Nodes {
+					nodesBefore[x.Id] = true
+				}
+				ro := realOut{M: m, Genes: [][4]int{}, Nodes: []int{}}
+				for try := 0; try < 200 && !ro.Ok && !ro.Err; try++ {
+					var ok bool
+					var err error
+					if p := vhu.Guard(func() {
+						if m.Kind == "node" {
+							ok, err = gn.VerifMutateAddNode(g, g, opts)
+						} else {
+							ok, err = gn.VerifMutateAddLink(g, 1, opts)
+						}
+					}); p != "" {
+						ro.Err = true
+					}
+					ro.Ok, ro.Err = ok, ro.Err || err != nil
+					if len(gn.Genes) != len(before) {
+						break
+					}
+				}
+				for _, x := range gn.Genes {
+					if !before[x.InnovationNum] {
+						ro.Genes = append(ro.Genes, [4]int{int(x.InnovationNum), x.Link.InNode.Id, x.Link.OutNode.Id, b2i(x.Link.IsRecurrent)})
+					}
+				}
+				for _, x := range gn.Nodes {
+					if !nodesBefore[x.Id] {
+						ro.Nodes = append(ro.Nodes, x.Id)
+					}
+				}
+				results[t] = append(results[t], ro)
+			}
+			finished <- t
+		}(t, sc.Progs[t-1])
+	}
+	parked := map[int]string{}
+	running := map[int]bool{}
+	for t := 1; t <= n; t++ {
+		running[t] = true
+	}
+	live := n
+	var choices []int
+	var alts [][]int
+	observed := [][]interface{}{}
+	timeout := time.After(10 * time.Second)
+	for live > 0 {
+		// wait until every live thread is parked or finished
+		for len(running) > 0 {
+			select {
+			case a := <-s.arrive:
+				parked[a.t] = a.point
+				delete(running, a.t)
+			case f := <-finished:
+				live--
+				delete(running, f)
+			case <-timeout:
+				return nil, nil, nil, "deadlock: threads neither parked nor finished within 10 s"
+			}
+		}
+		if live == 0 {
+			break
+		}
+		var cand []int
+		for t := 1; t <= n; t++ {
+			if _, ok := parked[t]; ok {
+				cand = append(cand, t)
+			}
+		}
+		if len(cand) == 0 {
+			return nil, nil, nil, "deadlock: live threads but nobody parked"
+		}
+		pick := cand[0]
+		if len(choices) < len(prefix) {
+			pick = prefix[len(choices)]
+			ok := false
+			for _, c := range cand {
+				ok = ok || c == pick
+			}
+			if !ok {
+				pick = cand[0]
+			}
+		}
+		choices = append(choices, pick)
+		alts = append(alts, cand)
+		observed = append(observed, []interface{}{pick, parked[pick]})
+		delete(parked, pick)
+		running[pick] = true
+		s.release[pick] <- struct{}{}
+		select {
+		case <-s.done:
+		case <-timeout:
+			return nil, nil, nil, "deadlock: a primitive did not return within 10 s"
+		}
+	}
+	reg := [][]interface{}{}
+	for _, i := range pop.VerifInnovationsUnsafe() {
+		k := "link"
+		if genetics.VerifInnovationKind(i) == 1 {
+			k = "node"
+		}
+		reg = append(reg, []interface{}{k, i.InNodeId, i.OutNodeId, i.IsRecurrent, int(i.OldInnovNum), i.NewNodeId, int(i.InnovationNum), int(i.InnovationNum2)})
+	}
+	ni, nn := pop.VerifCounters()
+	outs := [][]realOut{}
+	for t := 1; t <= n; t++ {
+		outs = append(outs, results[t])
+	}
+	return map[string]interface{}{"scenario": sc.Name, "explored": true, "ninn0": int(ninn0), "nnode0": int(nnode0), "sched": observed,
+		"followed": true, "note": "", "expect": [][]schedOut{}, "real": outs, "reg": reg, "ninn": int(ni), "nnode": int(nn),
+		"xninn": 0, "xnnode": 0, "xreglen": 0}, choices, alts, ""
+}
+
+func exploreSchedules(args []string) int {
+	fs := flag.NewFlagSet("explore-schedules", flag.ExitOnError)
+	out := fs.String("out", "", "NDJSON outcomes for Trace_InnovPar")
+	repf := fs.String("report", "", "report file")
+	maxPer := fs.Int("max", 400, "maximal number of schedules per scenario")
+	_ = fs.Parse(args)
+	f, err := os.Create(*out)
+	if err != nil {
+		fmt.Fprintln(os.Stderr, err)
+		return 2
+	}
+	defer f.Close()
+	enc := json.NewEncoder(f)
+	opts := vhu.BaseOptions(10)
+	opts.RecurOnlyProb = 0
+	opts.NewLinkTries = 50
+	rep := &vhu.Report{Command: "explore-schedules", Extra: map[string]interface{}{}}
+	perScenario := map[string]int{}
+	for _, sc := range exploreScenarios() {
+		stack := [][]int{{}}
+		seen := map[string]bool{}
+		count := 0
+		for len(stack) > 0 && count < *maxPer {
+			prefix := stack[len(stack)-1]
+			stack = stack[:len(stack)-1]
+			res, choices, alts, dead := runOrder(sc, opts, prefix)
+			if dead != "" {
+				rep.Fail(map[string]interface{}{"case": map[string]interface{}{"scenario": sc.Name, "prefix": prefix}, "what": dead, "signature": "C16 schedule deadlock"})
+				continue
+			}
+			key := fmt.Sprint(choices)
+			if seen[key] {
+				continue
+			}
+			seen[key] = true
+			count++
+			rep.Cases++
+			rep.Evaluations += len(choices)
+			res["prefix"] = choices
+			if err := enc.Encode(res); err != nil {
+				fmt.Fprintln(os.Stderr, err)
+				return 2
+			}
+			// branch on every alternative beyond the given prefix
+			for i := len(choices) - 1; i >= len(prefix); i-- {
+				for _, a := range alts[i] {
+					if a != choices[i] {
+						np := append(append([]int{}, choices[:i]...), a)
+						stack = append(stack, np)
+					}
+				}
+			}
+		}
+		perScenario[sc.Name] = count
+	}
+	rep.Extra["schedules_per_scenario"] = perScenario
+	return rep.Write(*repf)
 }
 
 func replaySchedules(args []string) int {
